@@ -142,7 +142,7 @@ pub fn run(cfg: &RunCfg) -> PropRun {
     let mut run = PropRun::default();
     run.rule = "range (1..3 alternatives of interval/sugar texts over an adjacent-version pool) x list of 0..12 versions drawn at and around the range's bounds: unsorted, with duplicates, with versions equal up to build metadata, with prereleases above the highest satisfying release, lists where nothing satisfies; each list also in 3 rotations/reversals. Oracle: with S = elements the crate's satisfies() accepts: None <=> S empty; otherwise the result is pointer-identical to a slice element, is in S, and no element of S is higher (lower) by the model's SemVer comparison; permutations change the answer at most among precedence-equal elements. Non-trivial = |S| >= 2 and a non-satisfying element is higher than the max answer; distinct by (range, list).".into();
     run.assumptions = vec!["relative to the crate's own satisfies(), as the statement is".into()];
-    let out = campaign(cfg, ID, "lists", cfg.pick(300_000, 4_000_000), strategy, check_case);
+    let out = campaign(cfg, ID, "lists", cfg.pick(600_000, 6_000_000), strategy, check_case);
     run.absorb(out);
     run
 }
